@@ -89,6 +89,27 @@ func customiseOneDriver() {
 	d.RenderFNs[expr.Equals] = func(l, r string) (string, error) { return l + " == " + r, nil }
 }
 
+// hasUndefined: some node of the (decoded) expression has the zero operator and enough structure to be rendered
+func hasUndefined(in any) bool {
+	switch e := in.(type) {
+	case *expr.Expression:
+		if e == nil {
+			return false
+		}
+		if e.Op == expr.Undefined {
+			return true
+		}
+		return hasUndefined(e.Left) || hasUndefined(e.Right)
+	case []*expr.Expression:
+		for _, x := range e {
+			if hasUndefined(x) {
+				return true
+			}
+		}
+	}
+	return false
+}
+
 func hasBad(t Tree) bool {
 	if t["op"] == "BAD" || t["ty"] == "other" {
 		return true
@@ -171,6 +192,20 @@ func cmdFoldDocs(args []string) {
 		}
 		var e expr.Expression
 		if outcomeOf(func() error { return json.Unmarshal([]byte(c.Doc), &e) }) != "ok" {
+			continue
+		}
+		if hasUndefined(&e) {
+			// a node whose operator no map registers (a misspelt operator name decodes to Undefined): Render must fail
+			full := map[string]string{}
+			for _, op := range allOps {
+				full[opNames[op]] = opNames[op]
+			}
+			run := traceRun(&e, full)
+			run["mode"], run["mop"] = "undefined", ""
+			n++
+			runs++
+			r.write(map[string]any{"id": c.ID, "q": c.Doc, "tree": Tree{"op": "LIT", "ty": "str", "v": "undefined", "sg": "x"}, "runs": []any{run},
+				"obs": map[string]any{"sql": obsCall{Out: "err", Empty: true}, "sqlp": obsCall{Out: "err", Empty: true}}})
 			continue
 		}
 		if outcomeOf(func() error { return expr.Validate(&e) }) != "ok" {
